@@ -171,8 +171,8 @@ theorem trimR_getLast_ne_space : ∀ (s : Bytes) (h : trimR s ≠ []), (trimR s)
   | c :: cs, h => by
     have e := trimR_cons c cs
     by_cases hc : (trimR cs).isEmpty ∧ c = 32
-    · simp [e, hc] at h
-    · have e' : trimR (c :: cs) = c :: trimR cs := by simp [e, hc]
+    · exfalso; apply h; rw [e, if_pos hc]
+    · have e' : trimR (c :: cs) = c :: trimR cs := by rw [e, if_neg hc]
       by_cases ht : trimR cs = []
       · have : trimR (c :: cs) = [c] := by rw [e', ht]
         simp only [this, List.getLast_singleton]
@@ -369,23 +369,117 @@ theorem loadWalk_some_tr : ∀ (ls : List Loader) (s : Stream) (tr : Int),
     (loadWalk ls s tr).2.1.isSome = true → (loadWalk ls s tr).1 = 0
   | [], s, tr, h => by simp [loadWalk] at h
   | l :: ls, s, tr, h => by
-    unfold loadWalk at h ⊢
-    split
-    · rfl
-    · rename_i h0
-      simp only [h0, if_false] at h
+    by_cases h0 : (l.test s.rewind false).rc = 0
+    · simp [loadWalk, h0]
+    · simp only [loadWalk, h0, if_false] at h ⊢
       exact loadWalk_some_tr ls _ _ h
 
 theorem loadWalk_none_neg : ∀ (ls : List Loader), NonPos ls → ∀ (s : Stream) (tr : Int), tr < 0 →
     (loadWalk ls s tr).2.1.isSome = false → (loadWalk ls s tr).1 < 0
   | [], _, s, tr, htr, _ => by simpa [loadWalk] using htr
   | l :: ls, hn, s, tr, _, h => by
-    unfold loadWalk at h ⊢
-    split
-    · rename_i h0; simp [h0] at h
-    · rename_i h0
-      simp only [h0, if_false] at h
+    by_cases h0 : (l.test s.rewind false).rc = 0
+    · simp [loadWalk, h0] at h
+    · simp only [loadWalk, h0, if_false] at h ⊢
       have hle := hn l (by simp) s.rewind false
       exact loadWalk_none_neg ls (fun x hx => hn x (by simp [hx])) _ _ (by omega) h
+
+theorem loadWalk_sel_mem : ∀ (ls : List Loader) (s : Stream) (tr : Int) (l : Loader) (o : LoadOut),
+    (loadWalk ls s tr).2.1 = some (l, o) → l ∈ ls ∧ ∃ s', o = l.load s'
+  | [], s, tr, l, o, h => by simp [loadWalk] at h
+  | x :: xs, s, tr, l, o, h => by
+    by_cases h0 : (x.test s.rewind false).rc = 0
+    · simp only [loadWalk, h0, if_true, Option.some.injEq, Prod.mk.injEq] at h
+      obtain ⟨rfl, rfl⟩ := h
+      exact ⟨by simp, _, rfl⟩
+    · simp only [loadWalk, h0, if_false] at h
+      obtain ⟨hm, hs⟩ := loadWalk_sel_mem xs _ _ l o h
+      exact ⟨by simp [hm], hs⟩
+
+/-- a failing `test_module` hands `info` back exactly as it received it (i.e. reset) -/
+theorem testWalk_fail_info (e : Env) : ∀ (ls : List Loader) (s : Stream) (buf : Bytes) (info : Option Info),
+    (testWalk e ls s buf info).1 ≠ 0 → (testWalk e ls s buf info).2.1 = info
+  | [], s, buf, info, _ => by simp [testWalk]
+  | l :: ls, s, buf, info, h => by
+    by_cases h0 : (l.test s.rewind true).rc = 0
+    · exfalso; apply h
+      simp only [testWalk, h0, if_true]
+      split <;> rfl
+    · simp only [testWalk, h0, if_false] at h ⊢
+      exact testWalk_fail_info e ls _ _ info h
+
+/-- a successful `test_module` filled `info` in one of exactly two ways -/
+theorem testWalk_ok_info (e : Env) : ∀ (ls : List Loader) (s : Stream) (buf : Bytes) (info : Option Info),
+    (testWalk e ls s buf info).1 = 0 →
+      (∃ l ∈ ls, ∃ st, l.name = prowizardName ∧
+          (testWalk e ls s buf info).2.1 = info.map (pwFill e.pwGarbage (e.pw st))) ∨
+      (∃ l ∈ ls, ∃ buf', l.name ≠ prowizardName ∧
+          (testWalk e ls s buf info).2.1 =
+            info.map (fun i => { name := boundedCopy i.name buf', type := boundedCopy i.type l.name }))
+  | [], s, buf, info, h => by simp [testWalk, eFormat, Gen.XMP_ERROR_FORMAT] at h
+  | l :: ls, s, buf, info, h => by
+    by_cases h0 : (l.test s.rewind true).rc = 0
+    · by_cases hpw : l.name = prowizardName
+      · left
+        refine ⟨l, by simp, (l.test s.rewind true).st.rewind, hpw, ?_⟩
+        simp only [testWalk, h0, hpw, if_true]
+      · right
+        refine ⟨l, by simp, overlayOpt (l.test s.rewind true).title buf, hpw, ?_⟩
+        simp only [testWalk, h0, hpw, if_true, if_false]
+    · simp only [testWalk, h0, if_false] at h ⊢
+      rcases testWalk_ok_info e ls _ _ info h with ⟨x, hx, st, h1, h2⟩ | ⟨x, hx, b, h1, h2⟩
+      · exact Or.inl ⟨x, by simp [hx], st, h1, h2⟩
+      · exact Or.inr ⟨x, by simp [hx], b, h1, h2⟩
+
+/-! ## bounded copies -/
+
+theorem set0_length (b : Bytes) : (set0 b).length = b.length := by
+  cases b <;> simp [set0]
+
+theorem cstr_set0 (b : Bytes) : cstr (set0 b) = [] := by
+  cases b <;> simp [set0, cstr]
+
+theorem hasNul_set0 {b : Bytes} (h : 0 < b.length) : hasNul (set0 b) = true := by
+  cases b with
+  | nil => simp at h
+  | cons x xs => simp [set0, hasNul]
+
+theorem strncpyBuf_prefix_length (s : Bytes) (n : Nat) :
+    ((cstr s).take n ++ zeros (n - ((cstr s).take n).length)).length = n := by
+  simp only [List.length_append, zeros_length, List.length_take]
+  omega
+
+theorem boundedCopy_length (d s : Bytes) (h : d.length = nameSize) : (boundedCopy d s).length = nameSize := by
+  have hp := strncpyBuf_prefix_length s (nameSize - 1)
+  unfold boundedCopy strncpyBuf
+  simp only [List.length_append, List.length_take, List.length_drop, zeros_length, List.length_cons,
+    List.length_nil, h] at hp ⊢
+  simp only [nameSize, Gen.XMP_NAME_SIZE] at hp ⊢
+  omega
+
+theorem boundedCopy_hasNul (d s : Bytes) : hasNul (boundedCopy d s) = true := by
+  unfold boundedCopy
+  apply hasNul_append_left
+  apply hasNul_append_right
+  simp [hasNul]
+
+/-- `strncpy(d, s, n)` leaves a terminated string when the source is shorter than `n` -/
+theorem strncpyBuf_hasNul (d s : Bytes) (n : Nat) (h : (cstr s).length < n) : hasNul (strncpyBuf d s n) = true := by
+  unfold strncpyBuf
+  apply hasNul_append_left
+  apply hasNul_append_right
+  apply hasNul_zeros
+  simp only [List.length_take]
+  omega
+
+theorem strncpyBuf_length (d s : Bytes) (n : Nat) (h : n ≤ d.length) : (strncpyBuf d s n).length = d.length := by
+  have hp := strncpyBuf_prefix_length s n
+  unfold strncpyBuf
+  simp only [List.length_append, List.length_drop] at hp ⊢
+  omega
+
+theorem overlay_length (w b : Bytes) (h : w.length ≤ b.length) : (overlay w b).length = b.length := by
+  simp only [overlay, List.length_append, List.length_drop]
+  omega
 
 end Xmp.TestLoad
